@@ -501,6 +501,20 @@ pub fn error_bytes(code: u16) -> Vec<u8> {
     vec![0, 5, (code >> 8) as u8, code as u8, b'x', 0]
 }
 
+/// Every shape of ERROR the decoder accepts (Codec.tla): terminated message, empty message,
+/// no terminator, nothing after the code, a message that is not UTF-8.
+pub fn error_bytes_variant(code: u16, variant: usize) -> Vec<u8> {
+    let mut v = vec![0, 5, (code >> 8) as u8, code as u8];
+    match variant % 5 {
+        0 => v.extend_from_slice(b"x\0"),
+        1 => v.push(0),
+        2 => v.extend_from_slice(b"no terminator"),
+        3 => {}
+        _ => v.extend_from_slice(&[0xff, 0xfe, 0]),
+    }
+    v
+}
+
 pub fn oack_bytes() -> Vec<u8> {
     let mut v = vec![0, 6];
     v.extend_from_slice(b"blksize\x00512\x00");
@@ -559,7 +573,7 @@ pub fn run_script(script: &Value, sid: usize, dir: &Path) -> Vec<Value> {
             }
             "err" => {
                 sim.push_event(ev);
-                sim.deliver(error_bytes(jint(step, "code", 0) as u16), dt);
+                sim.deliver(error_bytes_variant(jint(step, "code", 0) as u16, sid + idx), dt);
             }
             "fail" => {
                 sim.push_event(ev);
